@@ -177,6 +177,37 @@ class DocFlavour(Flavour):
         return super().model_did(real, maxd)
 
 
+class EmptyStrFlavour(Flavour):
+    """strings including the empty (falsy) string as data value 1"""
+    is_str = True
+    name_sorted = True
+
+    def _make(self, d):
+        return ([""] + NAMES)[d - 1]
+
+
+class FalsyIdFlavour(Flavour):
+    """string data; the explicit data_ids are the falsy values 0 and "" (legal: 'an optional integer or string')"""
+    is_str = True
+
+    def _make(self, d):
+        return NAMES[d - 1]
+
+    def real_did(self, mdid):
+        if mdid == 11:
+            return 0
+        if mdid == 12:
+            return ""
+        return super().real_did(mdid)
+
+    def model_did(self, real, maxd=8):
+        if real == 0 and isinstance(real, int) and not isinstance(real, bool):
+            return 11
+        if real == "":
+            return 12
+        return super().model_did(real, maxd)
+
+
 class IntFlavour(Flavour):
     def _make(self, d):
         return d * 7
@@ -258,6 +289,8 @@ def make(name, typed=False) -> Flavour:
         "int": IntFlavour,
         "words": WordFlavour,
         "ustr": UnicodeFlavour,
+        "estr": EmptyStrFlavour,
+        "str0": FalsyIdFlavour,
         "doc": DocFlavour,
         "falsy": FalsyFlavour,
         "tuple": TupleFlavour,
